@@ -501,17 +501,36 @@ pub fn denotes(t: &OwnedTerm, v: &RV) -> bool {
 
 // ------------------------------------------------------------------ emit (C03: admissible alternatives)
 
-fn put16(o: &mut Vec<u8>, v: usize) {
+/// Output buffer on the stack (<= 64 cells, so CBMC tracks every cell separately and concrete
+/// tag/length bytes stay concrete for the decoder under test).
+pub struct Out {
+    pub b: [u8; 64],
+    pub n: usize,
+}
+impl Out {
+    pub fn new() -> Self {
+        Out { b: [0; 64], n: 0 }
+    }
+    pub fn push(&mut self, x: u8) {
+        self.b[self.n] = x;
+        self.n += 1;
+    }
+    pub fn bytes(&self) -> &[u8] {
+        &self.b[..self.n]
+    }
+}
+
+fn put16(o: &mut Out, v: usize) {
     o.push((v >> 8) as u8);
     o.push(v as u8);
 }
-fn put32(o: &mut Vec<u8>, v: u64) {
+fn put32(o: &mut Out, v: u64) {
     o.push((v >> 24) as u8);
     o.push((v >> 16) as u8);
     o.push((v >> 8) as u8);
     o.push(v as u8);
 }
-fn put64(o: &mut Vec<u8>, v: u64) {
+fn put64(o: &mut Out, v: u64) {
     put32(o, v >> 32);
     put32(o, v & 0xffff_ffff);
 }
@@ -533,7 +552,7 @@ pub struct Alt {
 }
 pub const MODERN: Alt = Alt { int: 0, pad: 0, atom: 119, tuple: 104, pid: 88, port: 120, reference: 90 };
 
-fn emit_atom(o: &mut Vec<u8>, name: &[u8], alt: &Alt) {
+fn emit_atom(o: &mut Out, name: &[u8], alt: &Alt) {
     o.push(alt.atom);
     if alt.atom == 119 || alt.atom == 115 {
         o.push(name.len() as u8);
@@ -555,8 +574,38 @@ fn min_digits(m: u128) -> usize {
     if n == 0 { 1 } else { n }
 }
 
-pub fn emit(v: &RV, alt: &Alt, o: &mut Vec<u8>) {
+pub fn emit(v: &RV, alt: &Alt, o: &mut Out) {
     match v {
+        RV::Int(x) if alt.int >= 10 => {
+            // forced width (no data-dependent branching: the encoded length stays concrete).
+            // 10: SMALL_INTEGER_EXT, 11: INTEGER_EXT, 12: SMALL_BIG_EXT with `pad` digits, 13: LARGE_BIG_EXT with `pad` digits.
+            // The harness assumes the value fits; `accepts` re-checks that the bytes encode the value.
+            let x = *x;
+            if alt.int == 10 {
+                o.push(97);
+                o.push(x as u8);
+            } else if alt.int == 11 {
+                o.push(98);
+                put32(o, (x as i32) as u32 as u64);
+            } else {
+                let n = alt.pad;
+                if alt.int == 13 {
+                    o.push(111);
+                    put32(o, n as u64);
+                } else {
+                    o.push(110);
+                    o.push(n as u8);
+                }
+                o.push(if x < 0 { 1 } else { 0 });
+                let mut m = abs128(x);
+                let mut i = 0;
+                while i < n {
+                    o.push((m & 0xff) as u8);
+                    m >>= 8;
+                    i += 1;
+                }
+            }
+        }
         RV::Int(x) => {
             let x = *x;
             let fits32 = x >= i32::MIN as i128 && x <= i32::MAX as i128;
